@@ -12,9 +12,12 @@ R-C01.1  emitted  subset-of  handled, stage by stage: every node class of nodes.
          checker handler forwards has a compiler visitor.
 R-C01.2  pipeline must-calls: analyze -> check_bb -> linearity -> unitary in check_cfg;
          compile: every body under the side-effect tracker, insert_drops on every path.
-R-C01.3  block outputs of a branching block: the variables of every successor row are
-         partitioned into "inside the branch sum" and "regular outputs" by complementary
-         tests on the same flag the sort order uses (4-row truth table over copyable/droppable).
+R-C01.3  `choose_vars_for_tuple_sum` asserts that only droppable values enter a branch sum.  (The partition of a branching
+         block's outputs and the sort order are decided by R-C01.6; their comprehension-shape / text forms run only as the
+         fallback when `sort_vars` cannot be interpreted.)
+R-C01.6  `compile_bb`, `sort_vars` and `compare_var` interpreted as a whole on symbolic signatures (c01_outputs.py): for every
+         successor, branch-sum row ++ regular outputs == the successor's row sorted "droppable first, then by name"; a
+         non-entry block declares and binds its inputs in that same order, the entry block in signature order.
 R-C01.7  `choose_vars_for_tuple_sum` interpreted with a recording conditional builder on overlapping / equal / empty rows: every
          live place enters the branch conditional exactly once, case i tags exactly row i's values in order (c01_sum.py).
 R-C01.4  return variables are prepended consistently to the exit signature and to every
